@@ -235,9 +235,16 @@ def r4_dedupe(ctx, res):
     res.inst('ont:_find_helper', f.module.loc(f.node), 'no set-ordered value reaches the result')
 
 
+def r5_forms_stored_as_declared(ctx, res):
+    """search by word form finds what the documents declare only if every <Form> becomes a row: the binding analysis of the
+    importer (C01-R2) - one row per form of every entry, local or external, with its own written form and rank."""
+    from .c01 import r2_bindings
+    r2_bindings(ctx, res)
+
 RULES = [
     ('C09-R1', r1_sibling_form_predicate, 20),
     ('C09-R2', r2_normaliser, 3),
     ('C09-R3', r3_backoff, 10),
     ('C09-R4', r4_dedupe, 2),
+    ('C09-R5', r5_forms_stored_as_declared, 100),
 ]
